@@ -7,6 +7,10 @@ COMMON_TB = [
 ]
 PROPS = {
     "C04": {
+        "claim": "Inductive invariant of an access-granular model of queue.put/pop proved in Lean for every schedule, capacity (0, 1 included), cursor base (wrap-around) and number of producers: c04_fifo (returned sequence = prefix of the publication order, all three fields), c04_bounded, c04_window_intact, c04_returns_published, c04_full_is_full. Model tied to the code by regenerated function skeletons (tie 1) and lock-step correspondence under a controlled scheduler on the instrumented real functions (tie 2).",
+        "note": "Trusted: Lean kernel; extractor; instrumenter+scheduler; sequential consistency of the listed accesses (amd64 TSO + sync/atomic); cursors do not wrap (2^63).",
+        "technique": "Lean 4 proof (inductive invariant over single-access steps) + regenerated skeleton tie + scheduler lock-step correspondence",
+        "design_ref": "DESIGN.md §5 C04",
         "lean_modules": ["ShmVerif.Tie.C04", "ShmVerif.Props.C04"],
         "harness": True,
         "level": "proof",
@@ -20,6 +24,10 @@ PROPS = {
                         "one consumer per queue; producers of one process serialised by sync.Mutex (TryLock-modelled)"],
     },
     "C01": {
+        "claim": "PARTIAL proof. Proved in Lean over an access-granular model of bufferList.pop/push + header accessors: c01_geometry (EVERY interleaving: every buffer handed out is one of the n slots of its class), c01_exclusive_seq (every sequential-atomic history of any length/threads/slots: free chain and per-thread ownership partition the slots, no slot twice), c01_aba_witness (kernel-checked counter-example: the unrestricted concurrent statement is false - known finding F1, replayed on the real pop/push on every run). Exclusive ownership for ABA-free concurrent interleavings is not proved; it is covered only by the scheduler correspondence + ownership/signature monitors on the real code.",
+        "note": "Trusted: Lean kernel; extractor; instrumenter+scheduler; SC at the level of the listed accesses (amd64); flag-byte |= modelled as one step.",
+        "technique": "Lean 4 proof (geometry invariant over all interleavings; refinement to an abstract free list for sequential-atomic histories; decide-checked ABA witness) + skeleton tie + scheduler lock-step correspondence",
+        "design_ref": "DESIGN.md §5 C01",
         "lean_modules": ["ShmVerif.Tie.C01", "ShmVerif.Props.C01"],
         "harness": True,
         "level": "proof",
@@ -31,4 +39,6 @@ PROPS = {
                         "the non-atomic flag-byte |= is modelled as one step (no concurrent writer of that byte exists outside ABA)"],
     },
 }
-PROPS["C02"] = dict(PROPS["C01"], lean_modules=["ShmVerif.Tie.C01", "ShmVerif.Props.C02"])
+PROPS["C02"] = dict(PROPS["C01"], lean_modules=["ShmVerif.Tie.C01", "ShmVerif.Props.C02"],
+    claim="PARTIAL proof. Proved in Lean: c02_conservation_seq and c02_quiescent_full_seq (every sequential-atomic history: free count = chain length, free count + owned = capacity; when nothing is owned size = cap and the walk from head visits every slot exactly once and ends at tail), c02_failed_alloc_consumes_nothing (a failing pop restores every shared word), c02_aba_witness (kernel-checked: after the ABA schedule and full recycling size = cap = 4 but the walk visits 2 slots - known finding F1, replayed on the real code every run). Conservation for ABA-free concurrent interleavings is not proved; covered by scheduler correspondence + quiescence monitors (size, chain walk, count never exceeds capacity).",
+    design_ref="DESIGN.md §5 C02")
